@@ -17,35 +17,43 @@ type ModbusTCPAssembler struct {
 func (m *ModbusTCPAssembler) ReceiveRead(ctx context.Context, received []byte, bytesRead int) (response []byte, closeConnection bool) {
 	m.received.Write(received)
 
-	n, err := packet.LooksLikeModbusTCP(m.received.Bytes(), false)
-	if err == packet.ErrTCPDataTooShort {
-		return nil, false // wait for more data to arrive
-	} else if n == 0 {
-		// stream can not be synchronized to the start of the next packet when it does not contain Modbus TCP packets
-		m.received.Reset()
-		return err.(*packet.ErrorParseTCP).Bytes(), true
-	}
+	// single read can contain end of one packet and (multiple) following packets
+	for {
+		n, err := packet.LooksLikeModbusTCP(m.received.Bytes(), false)
+		if err == packet.ErrTCPDataTooShort {
+			return response, false // wait for more data to arrive
+		} else if n == 0 {
+			// stream can not be synchronized to the start of the next packet when it does not contain Modbus TCP packets
+			m.received.Reset()
+			return append(response, err.(*packet.ErrorParseTCP).Bytes()...), true
+		}
 
-	if m.received.Len() < n {
-		return nil, false // wait for the rest of the packet to arrive
+		if m.received.Len() < n {
+			return response, false // wait for the rest of the packet to arrive
+		}
+		frame := m.received.Next(n)
+		if err != nil { // packet with unsupported function code is answered and skipped
+			response = append(response, err.(*packet.ErrorParseTCP).Bytes()...)
+			continue
+		}
+		response = append(response, m.handle(ctx, frame)...)
 	}
-	frame := m.received.Next(n)
-	if err != nil { // packet with unsupported function code is answered and skipped
-		return err.(*packet.ErrorParseTCP).Bytes(), false
-	}
+}
+
+func (m *ModbusTCPAssembler) handle(ctx context.Context, frame []byte) []byte {
 	p, err := packet.ParseTCPRequest(frame)
 	if err != nil {
-		return err.(*packet.ErrorParseTCP).Bytes(), false
+		return err.(*packet.ErrorParseTCP).Bytes()
 	}
 
 	resp, err := m.Handler.Handle(ctx, p)
 	if err != nil {
 		var target *packet.ErrorParseTCP
 		if errors.As(err, &target) {
-			return target.Bytes(), false
+			return target.Bytes()
 		}
-		return packet.NewErrorParseTCP(packet.ErrUnknown, err.Error()).Bytes(), false
+		return packet.NewErrorParseTCP(packet.ErrUnknown, err.Error()).Bytes()
 	}
 
-	return resp.Bytes(), false
+	return resp.Bytes()
 }
